@@ -1,6 +1,7 @@
 import LexVerif.Proof.RoundNE
 import LexVerif.Proof.LitBits
 import LexVerif.Proof.Shortest
+import LexVerif.Proof.ShortestUp
 /-!
 # Props.RoundNE — sanity theorems about the float oracles `Spec.roundNE`, `Spec.litBits`, `Spec.shortest`
 
@@ -135,6 +136,52 @@ theorem shortest_roundtrips (hf : WF f) {bits : Nat} (h0 : 0 < bits) (hfin : bit
     {D : Nat} {E : Int} (h : (D, E) ∈ shortest f bits) :
     roundNE f (decFrac D E).1 (decFrac D E).2 = bits := shortest_roundtrips' hf h0 hfin h
 
+/-- `shortest` uses the largest possible decimal exponent: every decimal `D'·10^E'` (`D' ≥ 1`) that
+rounds to `bits` has `E' ≤ E`.  (`hsz` bounds the exponent range so that the `0.30103` estimate of the
+search start is valid; it holds for `f32`, `f64`.) -/
+theorem shortest_maximal_exponent (hf : WF f) (hsz : L f + 2 ≤ 200000) {bits : Nat} (h0 : 0 < bits)
+    (hfin : bits < f.infBits) {D : Nat} {E : Int} (h : (D, E) ∈ shortest f bits)
+    {D' : Nat} {E' : Int} (hD' : 1 ≤ D')
+    (hrt : roundNE f (decFrac D' E').1 (decFrac D' E').2 = bits) : E' ≤ E :=
+  shortest_maximal_exp hf h0 hfin h hD' hrt (up_bound hf hsz h0 hfin hD' hrt)
+
+/-- **minimality**: no round-tripping decimal has fewer significant digits than the one returned by
+`shortest` — stated as "whenever `D' < 10^n` (i.e. `D'` has at most `n` digits) also `D < 10^n`". -/
+theorem shortest_minimal (hf : WF f) (hsz : L f + 2 ≤ 200000) {bits : Nat} (h0 : 0 < bits)
+    (hfin : bits < f.infBits) {D : Nat} {E : Int} (h : (D, E) ∈ shortest f bits)
+    {D' : Nat} {E' : Int} (hD' : 1 ≤ D')
+    (hrt : roundNE f (decFrac D' E').1 (decFrac D' E').2 = bits) (n : Nat) (hn : D' < 10 ^ n) :
+    D < 10 ^ n := by
+  have hE := shortest_maximal_exponent hf hsz h0 hfin h hD' hrt
+  have hrtD := shortest_roundtrips hf h0 hfin h
+  by_contra hge
+  have hge : 10 ^ n ≤ D := Nat.le_of_not_lt hge
+  -- y = 1·10^(n+E) lies between D'·10^E' and D·10^E, hence rounds to `bits` as well
+  have ten_pos : ∀ z : ℤ, (0 : ℚ) < (10 : ℚ) ^ z := fun z => by positivity
+  have hy1 : ((decFrac D' E').1 : ℚ) / (decFrac D' E').2 ≤ ((decFrac 1 (n + E)).1 : ℚ) / (decFrac 1 (n + E)).2 := by
+    rw [decFrac_Q, decFrac_Q, Nat.cast_one, one_mul, zpow_add₀ (by norm_num), zpow_natCast]
+    have a1 : (D' : ℚ) ≤ 10 ^ n := by exact_mod_cast Nat.le_of_lt hn
+    have a2 : (10 : ℚ) ^ E' ≤ 10 ^ E := zpow_le_zpow_right₀ (by norm_num) hE
+    exact mul_le_mul a1 a2 (le_of_lt (ten_pos _)) (by positivity)
+  have hy2 : ((decFrac 1 (n + E)).1 : ℚ) / (decFrac 1 (n + E)).2 ≤ ((decFrac D E).1 : ℚ) / (decFrac D E).2 := by
+    rw [decFrac_Q, decFrac_Q, Nat.cast_one, one_mul, zpow_add₀ (by norm_num), zpow_natCast]
+    have a1 : (10 : ℚ) ^ n ≤ D := by exact_mod_cast hge
+    exact mul_le_mul_of_nonneg_right a1 (le_of_lt (ten_pos _))
+  have m1 := roundNE_mono hf (decFrac_den_pos _ _) (decFrac_den_pos _ _) hy1
+  have m2 := roundNE_mono hf (decFrac_den_pos _ _) (decFrac_den_pos _ _) hy2
+  rw [hrt] at m1
+  rw [hrtD] at m2
+  have hy := shortest_maximal_exponent hf hsz h0 hfin h (le_refl 1) (Nat.le_antisymm m2 m1)
+  have : n = 0 := by omega
+  subst this
+  omega
+
+/-- what is *not* proved: that `shortest` returns at least one pair for every finite positive pattern
+(adequacy of the fuel `420`), and that the returned `D` is the candidate closest to the exact value.
+For concrete patterns non-emptiness is checked by `decide` (see the examples). -/
+def shortest_total_full : Prop :=
+  ∀ f, f = f32 ∨ f = f64 → ∀ bits, 0 < bits → bits < f.infBits → shortest f bits ≠ []
+
 /-! ## Non-vacuity: concrete evaluations and instantiated hypotheses -/
 
 section examples
@@ -195,6 +242,13 @@ example : roundNE f64 (7 * 1) (7 * 10) = roundNE f64 1 10 := roundNE_scale wf_f6
 
 example : roundNE f64 (decFrac 1 (-1)).1 (decFrac 1 (-1)).2 = 0x3fb999999999999a :=
   shortest_roundtrips wf_f64 (by decide) (by decide +kernel) (by decide +kernel)
+
+/-- `shortest_minimal` instantiated: 0.1 has a one-digit shortest form, so nothing shorter exists;
+the 17-digit `D' = 10000000000000001, E' = -17` also round-trips and indeed has `E' ≤ -1` -/
+example : (-17 : ℤ) ≤ -1 :=
+  shortest_maximal_exponent wf_f64 (by decide) (by decide) (by decide +kernel)
+    (bits := 0x3fb999999999999a) (D := 1) (by decide +kernel) (D' := 10000000000000001) (by decide)
+    (by decide +kernel)
 
 example : litBits f64 10 10 ⟨true, [0, 0], [0], 5⟩ = f64.signBit :=
   litBits_zero f64 10 10 _ (by decide)
